@@ -553,13 +553,20 @@ def sc_linear_two_steps(M, n, sizes, computer="superadditive_cached", gap="explo
 
 
 @scenario
-def sc_linear_reset(M, n, computer="superadditive_cached", gap="exploitability"):
+def sc_linear_reset(M, n, computer="superadditive_cached", gap="exploitability", asked_before=False):
+    """asked_before: the caller asked the wrapper for its mask in the (arbitrary) state before reset - whatever the
+    wrapper keeps from that query must not survive the reset."""
     lin_m = M.mod("icg_gym_linear")
     init_ids = minimal(n)
     env, gen = make_env(M, n, computer, gap)
     lin = lin_m.ICG_Gym_Linear(env)
     k = put_env_state(M, env, n, gen.calls[-1], init_ids)
     ncalls = len(gen.calls)
+    if asked_before:
+        before = [M.val(x) for x in lin.action_masks()]
+        for sz in range(n):
+            M.check(f"before_reset.mask[{sz}]", M.iff(before[sz], M.or_(*[M.not_(k[c]) for c in range(1 << n)
+                                                                          if popcount(c) == sz and k[c] is not True])))
     st, info = lin.reset()
     M.check("reset.draws_new_game", len(gen.calls) == ncalls + 1 and info.get("game") is env.full_game)
     st = [M.val(x) for x in st]
